@@ -29,6 +29,10 @@ func DeterministicLevelDB(o *opt.Options) {
 	o.WriteL0SlowdownTrigger = 1 << 30
 	o.WriteL0PauseTrigger = 1 << 30
 	o.DisableSeeksCompaction = true
+	// goleveldb allocates one write buffer (default 4 MiB) per open and per
+	// transaction; the simulated stores hold kilobytes.  ffldb itself never
+	// sets this option.
+	o.WriteBuffer = 64 << 10
 }
 
 func (a *ffldbFS) OpenWrite(path string) (ffldb.VerifFile, error) {
